@@ -162,6 +162,12 @@ def showCell : Cell → String
   | .str s => s!"S,{hexBytes s}"
   | .null => "NULL"
 
+def cellKind : Cell → Nat
+  | .node _ => 0 | .pred _ => 1 | .time _ => 2 | .str _ => 3 | .null => 4
+  | .lit (.int _) => 5 | .lit (.float _) => 6 | .lit (.text _) => 7 | .lit (.bool _) => 8 | .lit (.blob _) => 9
+
+def dedupNat (l : List Nat) : List Nat := l.foldl (fun acc x => if acc.contains x then acc else x :: acc) []
+
 def showTable (cols : List Bytes) (rows : List Row) (ordered : Bool) : String :=
   let rs := rows.map fun r => "|".intercalate (cols.map fun b => showCell ((r.get b).getD .null))
   let rs := if ordered then rs else rs.mergeSort (· ≤ ·)
@@ -250,6 +256,7 @@ def runSpec (st : St) (q : Stmt) (having : List HTok) : String :=
     match staged with
     | .error _ => "err"
     | .ok rows =>
+      let mixedKeyBefore := q.orderBy.any fun (k, _) => (dedupNat (rows.map fun r => cellKind ((r.get k).getD .null))).length > 1
       let hv : Except HErr (List Row) :=
         if q.hasHaving then
           match newEvaluator having with
@@ -262,9 +269,12 @@ def runSpec (st : St) (q : Stmt) (having : List HTok) : String :=
         let rows := sortRows S q.orderBy rows
         let ordered := !q.orderBy.isEmpty
         let rows := if ordered then canonTies S q.orderBy cols rows else rows
+        -- the engine sorts BEFORE it applies HAVING: when a key column of the rows before HAVING mixes kinds of
+        -- values the comparison is not an order and nothing is promised about the sequence (marker mk=1)
+        let mark := fun (t : String) => if ordered && q.hasHaving && mixedKeyBefore then t.replace "ok cols=" "ok mk=1 cols=" else t
         match q.limit with
-        | some n => s!"limit={n} " ++ showTable cols rows ordered
-        | none => showTable cols rows ordered
+        | some n => s!"limit={n} " ++ mark (showTable cols rows ordered)
+        | none => mark (showTable cols rows ordered)
 
 /-- The reference pipeline reads ORDER BY, GROUP BY and LIMIT as the generator of the text meant them
     (`xob=`, `xgb=`, `xlim=`), not as the parser's hooks recorded them: a hook that distorts them is
